@@ -15,7 +15,11 @@
 package toml
 
 import (
+	"fmt"
 	"io"
+	"maps"
+	"math/big"
+	"slices"
 
 	"github.com/pelletier/go-toml/v2"
 
@@ -43,5 +47,52 @@ func (e *Encoder) Encode(val cue.Value) error {
 	if err := val.Decode(&v); err != nil {
 		return err
 	}
+	v, err := checkNumbers(v, "")
+	if err != nil {
+		return err
+	}
 	return e.encoder.Encode(v)
+}
+
+// checkNumbers reports an error for any number which TOML cannot represent.
+// TOML integers are 64-bit signed and TOML floats are IEEE 754 binary64 values.
+// [cue.Value.Decode] resorts to [*big.Int] and [*big.Float] for numbers beyond those ranges,
+// which go-toml would otherwise silently encode as strings.
+func checkNumbers(v any, path string) (any, error) {
+	switch v := v.(type) {
+	case *big.Int:
+		if v.IsInt64() {
+			// For example, the smallest int64.
+			return v.Int64(), nil
+		}
+		return nil, fmt.Errorf("toml: %scannot encode integer %v: TOML integers are limited to 64 bits", path, v)
+	case *big.Float:
+		return nil, fmt.Errorf("toml: %scannot encode float %s: TOML floats are limited to 64 bits", path, v.Text('g', -1))
+	case []any:
+		for i, elem := range v {
+			elem, err := checkNumbers(elem, fmt.Sprintf("%s%d: ", pathPrefix(path), i))
+			if err != nil {
+				return nil, err
+			}
+			v[i] = elem
+		}
+	case map[string]any:
+		// Sort the keys so that the first error we report is deterministic.
+		for _, key := range slices.Sorted(maps.Keys(v)) {
+			elem, err := checkNumbers(v[key], fmt.Sprintf("%s%s: ", pathPrefix(path), key))
+			if err != nil {
+				return nil, err
+			}
+			v[key] = elem
+		}
+	}
+	return v, nil
+}
+
+// pathPrefix turns a path like "a.b: " back into the prefix "a.b." for a longer path.
+func pathPrefix(path string) string {
+	if path == "" {
+		return ""
+	}
+	return path[:len(path)-len(": ")] + "."
 }
